@@ -1436,7 +1436,7 @@ func c03ProgramCheck(rep *Report, r *Rng, p c03Piece, src []byte, o int) {
 			return
 		}
 	}
-	if pan == nil && !c03PieceHasPUE(p) {
+	if pan == nil {
 		q := c03Piece{toks: p.toks, mode: append([]int8{}, p.mode...), str: p.str}
 		changed := false
 		got, _ := c03Relex(src)
@@ -1460,7 +1460,7 @@ func c03ProgramCheck(rep *Report, r *Rng, p c03Piece, src []byte, o int) {
 			}
 		}
 	}
-	c03AcceptCheck(rep, src, o, p.str, c03PieceHasPUE(p), "program", true)
+	c03AcceptCheck(rep, src, o, p.str, "program", true)
 }
 
 // c03SpellPlain: one space between tokens, one newline where a line break is required
@@ -1475,11 +1475,6 @@ func c03SpellPlain(p c03Piece) []byte {
 		b.Write(t.data)
 	}
 	return b.Bytes()
-}
-
-// c03PieceHasPUE: `++x ** y` occurs (known finding)
-func c03PieceHasPUE(p c03Piece) bool {
-	return strings.Contains(p.str, "(++") && strings.Contains(p.str, ")**") || strings.Contains(p.str, "(--") && strings.Contains(p.str, ")**")
 }
 
 // c03ProgramRejections: single-bracket mutations of whole programs and duplicate lexical declarations.
